@@ -26,7 +26,7 @@ type Config struct {
 }
 
 func DefaultConfig() Config {
-	return Config{MaxSteps: 3_000_000, MaxConcretize: 4096, MaxAlloc: 1 << 16, MaxPaths: 2_000_000, Solver: "cvc5", Fallback: "z3", TimeoutMs: 4000, Workers: 16, MaxViolations: 2}
+	return Config{MaxSteps: 3_000_000, MaxConcretize: 4096, MaxAlloc: 1 << 16, MaxPaths: 8_000_000, Solver: "cvc5", Fallback: "z3", TimeoutMs: 4000, Workers: 16, MaxViolations: 2}
 }
 
 type Stats struct {
